@@ -40,4 +40,70 @@ def main(seed, tier):
                 za.close()
                 zb.close()
     log("selftest: %d specs executed twice in different zygotes, %d mismatches, %.0f s" % (total, bad, time.monotonic() - t0))
-    return 2 if bad or not total else 0
+    tb, tt = threaded(seed, n, corp, one)
+    one.close()
+    return 2 if bad or tb or not total else 0
+
+
+THREADED_SUTS = [("seeded/c14b-request-watchdog", "C14"), ("seeded/c14a-compile-watchdog", "C14"), ("seeded/c10a-drip-timeout", "C10")]
+
+
+def threaded(seed, n, corp, one):
+    """The unchanged daemon is one sequential thread, so the scheduler's thread hand-over is never exercised by it.
+    Its determinism is proved on trees that do use threads / an asyncio executor: seeded changes applied to a scratch
+    copy (removed afterwards); every spec carries scheduling decisions and a pre-emption period; two different zygote
+    instances must produce identical digests."""
+    import os
+    import shutil
+    from . import sensitivity
+    from .prng import Rng
+    from .zpool import Zygote
+    bad = total = multi = 0
+    t0 = time.monotonic()
+    for name, prop in THREADED_SUTS:
+        m = [x for x in sensitivity.mutants() if x["name"] == name]
+        if not m:
+            log("selftest(threads): %s not present, skipped" % name)
+            continue
+        d = sensitivity.scratch_copy()
+        try:
+            why = sensitivity.apply(m[0], d)
+            if why:
+                log("selftest(threads): %s does not apply (%s), skipped" % (name, why))
+                continue
+            src = os.path.join(d, "src")
+            specs = []
+            for k in range(n):
+                if prop == "C14":
+                    s = gen.c14_spec(seed, k, corp, [0])
+                else:
+                    s = gen.c10_random_spec(seed, k, corp, [0])
+                r = Rng(seed, "selftest-sched", k)
+                s["knobs"]["sched"] = [r.below(6) for _ in range(40)]
+                s["knobs"]["preempt_every"] = r.choice([300, 3000])
+                specs.append(s)
+            if prop == "C10":
+                specs += gen.c10_sweep_specs(corp, {})[-12:]  # the drip / orphan fault points
+            za, zb = Zygote(0, src), Zygote(0, src)
+            za.wait_ready()
+            zb.wait_ready()
+            try:
+                for s in specs:
+                    a, b = za.run(s), zb.run(s)
+                    total += 1
+                    if (a.get("probes") or {}).get("threads-in-use"):
+                        multi += 1
+                    if a.get("harness_error") or b.get("harness_error"):
+                        bad += 1
+                        log("HARNESS-ERROR %s on %s k=%s: %s" % (prop, name, s.get("k"), a.get("harness_error") or b.get("harness_error")))
+                    elif a.get("digest") != b.get("digest"):
+                        bad += 1
+                        log("HARNESS-ERROR determinism(threads) %s k=%s: %s != %s" % (name, s.get("k"), a.get("digest"), b.get("digest")))
+            finally:
+                za.close()
+                zb.close()
+        finally:
+            shutil.rmtree(d, ignore_errors=True)
+    log("selftest(threads): %d specs executed twice on threaded trees (%d of them ran more than one thread), %d mismatches, %.0f s"
+        % (total, multi, bad, time.monotonic() - t0))
+    return bad, total
